@@ -208,7 +208,8 @@ def _reject(model: Model, Rj: RuleResult):
     cl = model.func(PACK, "Packer.construct_from_tensor_list")
     cfg = CFG(cl.node)
     dom = cfg.dominators(skip_exc=True)
-    puts = [n for n in cfg.nodes if n.stmt is not None and n.kind == "stmt" and isinstance(n.stmt, ast.Assign) and "_put_tensors(" in ast.unparse(n.stmt)]
+    puts = [n for n in cfg.nodes if n.stmt is not None and n.kind in ("stmt", "return") and isinstance(n.stmt, (ast.Assign, ast.Return, ast.Expr))
+            and any(isinstance(c, ast.Call) and ast.unparse(c.func).split(".")[-1] == "_put_tensors" for c in ast.walk(n.stmt))]
     if not puts:
         raise AnchorError("no refill statement")
 
